@@ -21,7 +21,6 @@ package main
 
 import (
 	"fmt"
-	"math"
 	"math/big"
 	"math/rand"
 	"strconv"
@@ -56,12 +55,7 @@ func c09resMB(gb float32) (string, bool) {
 // the harness's copy of parsenum.go roundUpTo, to canonicalise the `threads`
 // text the model keeps (trusted: strconv and this arithmetic)
 func c09resRoundUpTo(value float32, granularity float64) float32 {
-	if value > 0 {
-		return float32(math.Ceil(float64(value)*granularity) / granularity)
-	} else if value < 0 {
-		return float32(math.Floor(float64(value)*granularity) / granularity)
-	}
-	return 0
+	return c09RoundUpTo(value, granularity) // harness/c09.go: the one copy of parsenum.go roundUpTo
 }
 
 func c09resCanonThreads(raw string) string {
@@ -797,6 +791,39 @@ func c09Res(c0 *Ctx) {
 	c := &cc
 	c09resGB(c)
 	c09resStages(c)
-	// F-threads (known finding): roundUpTo(·, 100) is not stable under the float32 rounding of k/100
+	// F30 (fixed by the roundUpTo repair): roundUpTo(·, 100) was not stable under the float32 rounding of
+	// k/100 (threads = 0.065 -> 0.07 -> 0.08; 10.01 -> 10.02 -> 10.03).  Replayed, and checked
+	// EXHAUSTIVELY over the hundredths: every k/100, 1 <= k <= 6400 (and the negatives of a sample),
+	// written with two decimals reads as the float32 nearest to k/100, and print + read leaves it there.
 	c09resProperty(c, "stage S(\n    src py \"x\",\n) using (\n    threads = 0.065,\n)\n", "replay threads-hundredths")
+	c09resProperty(c, "stage S(in i x,out y,src comp\"b\",)using(memgb=0,threads=10.01,)", "replay threads 10.01")
+	for k := -6400; k <= 6400; k++ {
+		if k == 0 || (k < 0 && k%4 != 0) {
+			continue
+		}
+		lit := strconv.FormatFloat(float64(k)/100, 'f', 2, 64)
+		src := "stage S(\n    src py \"x\",\n) using (\n    threads = " + lit + ",\n)\n"
+		r := c.Res
+		r.hist("threads:hundredths")
+		r.count("threads:"+lit, true)
+		ast, err, pan := c09Parse([]byte(src), "t.mro")
+		if pan != "" || err != nil || ast == nil || len(ast.Stages) != 1 || ast.Stages[0].Resources == nil {
+			r.violate(Violation{Kind: "property", Key: "C09:threads-hundredths", What: "a stage with a two-decimal threads value is not parsed", Input: src, Impl: fmt.Sprint(err, pan)})
+			continue
+		}
+		t0 := ast.Stages[0].Resources.Threads
+		out, _, _ := c09Format([]byte(src), "t.mro")
+		ast1, _, _ := c09Parse([]byte(out), "t.mro")
+		var t1 float32 = -12345
+		if ast1 != nil && len(ast1.Stages) == 1 && ast1.Stages[0].Resources != nil {
+			t1 = ast1.Stages[0].Resources.Threads
+		}
+		if want := float32(float64(k) / 100); t0 != want || t1 != t0 {
+			r.violate(Violation{Kind: "property", Key: "C09:threads-hundredths",
+				What:  "a threads value with two decimals is changed by reading it, or by formatting and reading it again",
+				Input: map[string]interface{}{"source": src, "formatted": out}, Impl: fmt.Sprintf("read %g, after format %g", t0, t1), Expect: fmt.Sprintf("%g both times", want),
+				Broken: "C09 monitor: resources are preserved by the formatter (roundUpTo is idempotent on its own output)"})
+			break
+		}
+	}
 }
